@@ -456,6 +456,8 @@ func (runtime *Runtime) deliverDeduplicatedEvents(ch chan dedup, empty chan<- de
 			}
 		}
 
+		runtime.verifBeforeTrigger(&k)
+
 		// notify controllers
 		controllers, err := runtime.depDB.GetDependentControllers(controller.Input{
 			Namespace: k.Namespace,
